@@ -98,6 +98,16 @@ def pools_of(model, reaction, off) -> list[dict]:
             walk(a)
 
     walk(model.intensity)
+    # every rotation factor D^j / d^j must carry the spin of the state whose projections it mixes
+    from sympy.physics.quantum.spin import WignerD
+
+    for w in model.intensity.atoms(WignerD):
+        j = w.args[0]
+        sids = {state_of(x.name) for a in w.args[1:3] for x in a.free_symbols}
+        sids.discard(None)
+        for sid in sids:
+            if sid in outer:
+                out.append({"index": f"rotation:{w.args[1]},{w.args[2]}", "spin2": outer[sid]["spin2"], "massless": -1, "vals": [int(2 * sp.Rational(j))]})
     return out
 
 
